@@ -549,3 +549,10 @@ COQ_PROPS = (list(COQ_PROPS) if isinstance(COQ_PROPS, (list, tuple)) else [COQ_P
 THEOREMS = list(THEOREMS) + ['SRC_valid_classes', 'SRC_class_valid', 'SRC_multiplicity', 'SRC_is_constant', 'SRC_is_repeating', 'SRC_const_period', 'SRC_n_slices']
 TABLES = sorted(set(list(globals().get('TABLES') or ['t_classes', 't_ext_tol']) + ['t_src_ext', 't_classes', 't_ext_tol']))
 TRUSTED_BASE = list(TRUSTED_BASE) + ['tools/tables/py2coq.py + t_src_ext.py: typed fail-closed translator of is_constant, is_repeating, get_valid_classes, get_multiplicity, _get_const_period, n_slices into Gallina; coq/Common/PyOps2.v as the meaning of the translated primitives']
+
+
+# source tie (integrator): meta_valid / get_meta / __getitem__ are TRANSLATED from the Python AST on every run
+# (tools/tables/t_src_lookup.py) and Ext.Model's lookups are proved equal to the translation (Props/SRClookup.v)
+COQ_PROPS = (list(COQ_PROPS) if isinstance(COQ_PROPS, (list, tuple)) else [COQ_PROPS]) + ['Props/SRClookup.v']
+THEOREMS = list(THEOREMS) + ['SRC_meta_valid', 'SRC_get_meta', 'SRC_getitem']
+TABLES = sorted(set(list(globals().get('TABLES') or []) + ['t_src_lookup', 't_classes', 't_ext_tol']))
